@@ -290,8 +290,8 @@ Kvs == {[NoKv EXCEPT !.st = "done", !.fn = 8], [NoKv EXCEPT !.lv = 0, !.try = 5]
 
 Init == InitWith(DesignHost)
 
-On(g) == g \in OpsOn
-DoAddMany  == \E b \in Batches : AddMany(b)
+On(g) == g \in OpsOn /\ n < MaxOps
+DoAddMany  == On("add") /\ \E b \in Batches : AddMany(b)
 DoCheckOut == On("core") /\ \E st \in {"todo", "error", "done"}, lv \in {NoneI, 1, 2} : CheckOut(st, lv)
 DoCheckIn  == On("core") /\ \E u \in URLs, st \in {"done", "error", "skipped"}, inc \in BOOLEAN :
                 \/ CheckIn(u, st, inc, FALSE, NoneS, NoneI)
@@ -304,12 +304,17 @@ DoUpdate   == On("update") /\ \E u \in URLs, kv \in Kvs : UpdateOne(u, kv)
 DoAddVisits == On("visits") /\ \/ \E u \in {2, 3}, w \in {5, 6}, d \in {5, 6} : AddVisits(<<<<u, w, d>>>>)
                                \/ AddVisits(<<<<2, 5, 5>>, <<2, 6, 6>>, <<3, 6, 5>>>>)
 DoGetRevisit == On("visits") /\ \E u \in {2, 3}, d \in {5, 6} : GetRevisitId(u, d)
-DoReads    == On("reads") /\ (Count \/ GetAll \/ GetHostnames \/ RootTodo \/ \E u \in URLs : GetOne(u) \/ Contains(u))
+DoCount    == On("reads") /\ Count
+DoGetAll   == On("reads") /\ GetAll
+DoGetHostnames == On("reads") /\ GetHostnames
+DoRootTodo == On("reads") /\ RootTodo
+DoGetOne   == On("reads") /\ \E u \in URLs : GetOne(u)
+DoContains == On("reads") /\ \E u \in URLs : Contains(u)
+DoReads    == DoCount \/ DoGetAll \/ DoGetHostnames \/ DoRootTodo \/ DoGetOne \/ DoContains
 DoConvertOut == On("convert") /\ ConvertCheckOut
 DoConvertIn  == On("convert") /\ \E f \in 1..2, st \in {"done", "todo"} : ConvertCheckIn(f, st)
 
-Next == n < MaxOps /\
-        \/ DoAddMany \/ DoCheckOut \/ DoCheckIn \/ DoRelease \/ DoRemove \/ DoReopen \/ DoUpdate
+Next == \/ DoAddMany \/ DoCheckOut \/ DoCheckIn \/ DoRelease \/ DoRemove \/ DoReopen \/ DoUpdate
         \/ DoAddVisits \/ DoGetRevisit \/ DoReads \/ DoConvertOut \/ DoConvertIn
 
 Spec == Init /\ [][Next]_vars
@@ -317,8 +322,10 @@ Spec == Init /\ [][Next]_vars
 Bounded == n <= MaxOps
 
 -----------------------------------------------------------------------------
-(* The reference satisfies every clause of the property (design check);     *)
-(* the clauses that the unchanged code violates hold only with the repairs. *)
+(* The reference satisfies every clause of the property (design check):     *)
+(* ModelClauses = all clauses, minus exactly what the three recorded        *)
+(* defects break while their repair switch is off (with all three switches  *)
+(* on it is equivalent to Clauses).                                         *)
 TypeOK ==
   /\ DOMAIN ids = DOMAIN tab
   /\ \A u \in DOMAIN tab : tab[u].u = u /\ tab[u].st \in {"todo", "in_progress", "done", "error", "skipped"}
@@ -328,10 +335,13 @@ TypeOK ==
   /\ \A f, g \in DOMAIN files : f # g => files[f].qid # files[g].qid
 
 Clauses == BadClause = 0
-ClausesAsIs ==   \* everything except what defects 1-3 break
+
+ConvFixed == FixFileId /\ FixRemoveFiles
+ModelClauses ==
   /\ ReAddIsNoop /\ AddManyReportsExactlyNew /\ NewRowAsGiven /\ OnlyRemoveDeletes /\ RemoveExact
   /\ OnlyMutatorsMutate /\ StatusMachine /\ TryMonotone /\ DepthStable /\ CheckOutNotFoundIff /\ CheckOutMarks
   /\ CheckInStatusTry /\ CheckInResult /\ CheckInOthersSame /\ UpdateExact /\ ReleaseExact /\ ReopenIdentity
   /\ ReadAgree /\ FailureAtomic /\ VisitSound /\ VisitComplete
-  /\ (NoCrash \/ (ev.res.k = "crash" /\ ((Is("add_many") /\ ~FixBind) \/ Is("convert_check_out"))))
+  /\ (NoCrash \/ (ev.res.k = "crash" /\ ((Is("add_many") /\ ~FixBind) \/ (Is("convert_check_out") /\ ~ConvFixed))))
+  /\ (ConvFixed => ConvertSound)
 =============================================================================
